@@ -15,6 +15,7 @@ import (
 	"time"
 
 	"kmc/core"
+	"kmc/jr"
 	"kmc/litmus"
 
 	"github.com/sboehler/knut/lib/model/registry"
@@ -130,7 +131,19 @@ func raceOnlyScenarios() []scenario {
 		fmt.Fprintf(&big, "2020-%02d-%02d \"t%05d\"\nAssets:Bank Expenses:Food %d.%02d USD\n\n", 1+(i/400)%12, 1+i%28, i, 1+i, i%100)
 	}
 	bigFiles := map[string]string{"root.knut": "include \"big.knut\"\n", "big.knut": big.String()}
+	// portfolio returns with filters: a commodity that the filter rejects, booked on accounts
+	// that appear for the first time on later days (the two performance stages evaluate the
+	// same filter objects on different days at the same time)
+	var filt []jr.Dir
+	for i := 0; i < 12; i++ {
+		d := fmt.Sprintf("2020-01-%02d", 5+i)
+		acc := fmt.Sprintf("Assets:Later%02d", i)
+		filt = append(filt, jr.P(d, "USD", fmt.Sprintf("0.9%d", i%10), "CHF"), jr.P(d, "EUR", "1.1", "CHF"), jr.O(d, acc),
+			jr.T(d, "usd", jr.B(accOpening, accCash, "10", "USD")), jr.T(d, "eur", jr.B(accOpening, acc, "5", "EUR")))
+	}
+	filtFiles := map[string]string{"j.knut": jr.RenderAll(append(opensPrefix(), filt...))}
 	return []scenario{
+		{Name: "pipe-returns-filtered", Files: filtFiles, Args: []string{"portfolio", "returns", "-v", "CHF", "--account", "Assets|Liabilities", "--commodity", "USD|CHF", "--days", "j.knut"}},
 		{Name: "big-file-5000-transcode", Files: bigFiles, Args: []string{"transcode", "-v", "CHF", "root.knut"}},
 		{Name: "big-infer-700", Files: inferFiles, Args: []string{"infer", "-t", "train.knut", "target.knut"}},
 		{Name: "big-table-balance", Files: files, Args: []string{"balance", "--color=false", "--digits", "2", "j.knut"}},
